@@ -1,0 +1,10 @@
+//go:build verif
+
+package dartlang
+
+// Verification hooks for property C11 (the compiler is total). Add-only.
+
+func VerifToFileName(s string) string              { return toFileName(s) }
+func VerifToFieldName(s string) string             { return toFieldName(s) }
+func VerifLowercaseFirstCharacter(s string) string { return lowercaseFirstCharacter(s) }
+func VerifToScreamingCapsConstant(s string) string { return toScreamingCapsConstant(s) }
